@@ -199,6 +199,26 @@ def admissible (f : Path) (B : Bytes) : FS → List Op → Bool
      | .rename s d => !isKeyPath s && ((d == f && fs.files s == some B) || !isKeyPath d))
     && admissible f B (fs.step op) rest
 
+/-- The weaker, *prefix* discipline (an in-place writer): besides what `admissible` allows, the
+    entry's own file `f` may be truncated and appended to, as long as its content stays a prefix
+    of the complete new content `B`.  Safe only together with a reader that treats an unreadable
+    entry as missing (`prefix_discipline_new_reader`, Props/C15). -/
+def admissibleP (f : Path) (B : Bytes) : FS → List Op → Bool
+  | _, [] => true
+  | fs, op :: rest =>
+    (match op with
+     | .mkdir _ => true
+     | .create p => p == f || !isKeyPath p
+     | .append p b =>
+        if p == f then
+          (match fs.files f with
+           | some c => (c ++ b).isPrefixOf B
+           | none => true)
+        else !isKeyPath p
+     | .unlink p => !isKeyPath p
+     | .rename s d => !isKeyPath s && ((d == f && fs.files s == some B) || !isKeyPath d))
+    && admissibleP f B (fs.step op) rest
+
 /-! ## a finite file system for the driver / concrete examples -/
 
 def FS.ofList (files : List (Path × Bytes)) (dirs : List Path) : FS :=
